@@ -586,6 +586,10 @@ pub fn fifo_with(root: &Path, data: &[u8]) -> Option<PathBuf> {
 /// must consist of lines shorter than 4096 bytes without control characters other than the line feed.
 /// Returns None when the pseudo-terminal cannot be set up or the run does not end in time (never a verdict).
 pub fn run_tty(exe: &Path, args: &[&str], stdin_data: &[u8], stdin_tty: bool, stdout_tty: bool) -> Option<CliOut> {
+    run_tty_env(exe, args, &[], stdin_data, stdin_tty, stdout_tty)
+}
+
+pub fn run_tty_env(exe: &Path, args: &[&str], env: &[(String, String)], stdin_data: &[u8], stdin_tty: bool, stdout_tty: bool) -> Option<CliOut> {
     use std::os::fd::{FromRawFd, OwnedFd};
     unsafe fn open_pty(raw_output: bool, echo: bool) -> Option<(OwnedFd, OwnedFd)> {
         let (mut m, mut s) = (0, 0);
@@ -607,6 +611,9 @@ pub fn run_tty(exe: &Path, args: &[&str], stdin_data: &[u8], stdin_tty: bool, st
     }
     let mut cmd = Command::new(exe);
     cmd.args(args).env_clear().env("RUST_BACKTRACE", "0").env("TERM", "xterm").stderr(Stdio::piped());
+    for (k, v) in env {
+        cmd.env(k, v);
+    }
     let mut out_master = None;
     if stdout_tty {
         let (m, s) = unsafe { open_pty(true, false) }?;
